@@ -336,7 +336,44 @@ def run(ctx):
             ok = s1 == ("call", "to_kelvin", ("value",)) and s2 == ("call", "from_kelvin", ("value",))
         else:
             ok = None
-        if ok is False and "const" not in (s1 or ("",))[0:1] + (s2 or ("",))[0:1] and (s1 is None or s2 is None or "?" in str(s1) + str(s2) or "call" in (s1[0], s2[0])):
+        if ok is not True and v in ta and v in fa:
+            # any arithmetic spelling: the two arms are rational functions of the value and the variant's fields - compose them on
+            # exact rational sample points (an identity of rational functions that holds at more points than its degree holds everywhere)
+            from fractions import Fraction as Fr_
+
+            def evalx(n_, env_):
+                n_ = H.strip(n_)
+                k_ = H.kind(n_)
+                if k_ == "Block" and not n_["stmts"] and n_.get("expr") is not None:
+                    return evalx(n_["expr"], env_)
+                if k_ == "Lit":
+                    try:
+                        return Fr_(str(n_.get("v")).replace("_", "").replace("f64", ""))
+                    except (ValueError, ZeroDivisionError):
+                        return None
+                if k_ == "Path":
+                    return env_.get(H.path_local(n_))
+                if k_ == "Unary" and n_.get("op") in ("Neg", "Deref"):
+                    x_ = evalx(n_["e"], env_)
+                    return None if x_ is None else (-x_ if n_["op"] == "Neg" else x_)
+                if k_ == "Binary" and n_["op"] in ("Add", "Sub", "Mul", "Div"):
+                    a_, b_ = evalx(n_["l"], env_), evalx(n_["r"], env_)
+                    if a_ is None or b_ is None or (n_["op"] == "Div" and b_ == 0):
+                        return None
+                    return {"Add": a_ + b_, "Sub": a_ - b_, "Mul": a_ * b_, "Div": a_ / b_ if b_ != 0 else None}[n_["op"]]
+                return None
+            flds = sorted(set(H.pat_binds(ta[v]["pat"])) | set(H.pat_binds(fa[v]["pat"])))
+            pts = [(Fr_(7, 3), 0), (Fr_(-11, 5), 1), (Fr_(13, 2), 2), (Fr_(1, 9), 3)]
+            res_ = []
+            for x0, i_ in pts:
+                envf = {f_: Fr_(3 + 2 * j_ + i_, 2 + j_) for j_, f_ in enumerate(flds)}
+                y_ = evalx(ta[v]["body"], dict(envf, **{tparam: x0}))
+                z_ = evalx(fa[v]["body"], dict(envf, **{fparam: y_})) if y_ is not None else None
+                res_.append(None if z_ is None else z_ == x0)
+            if None not in res_:
+                ok = all(res_)
+                s1, s2 = "arithmetic over %s" % flds, "from_base(to_base(x)) == x at %d exact sample points: %s" % (len(pts), ok)
+        if ok is False and isinstance(s1, (tuple, type(None))) and isinstance(s2, (tuple, type(None))) and "const" not in (str((s1 or ("",))[0]), str((s2 or ("",))[0])) and (s1 is None or s2 is None or "?" in str(s1) + str(s2) or "call" in (s1[0], s2[0])):
             ok = None   # a spelling the shape reader does not follow (a helper, a block): no verdict; a decided pair of operators that is not inverse stays a finding
         ctx.inst("C17.R7", "variant=%s" % v, ok, "to_base: %s ; from_base: %s" % (s1, s2), H.loc(ta[v]["body"]))
 
